@@ -61,6 +61,19 @@ def mentions_std(t):
                (a.kind == 'sub' and 'estimate_stats' in pretty(Term.of(a))) for a in T.all_atoms(t).values())
 
 
+def zero_variance_test(ctx, ret, fi):
+    """the condition (of the returned value) that tests the deviation: the one under which the scale factor is 0"""
+    cands = [c for c in T.conditions(ret).values() if mentions_std(c)]
+    ctx.require(len(cands) == 1, f'{fi.name}: expected exactly one test of the data deviation in the returned value, found {len(cands)}')
+    c = cands[0]
+    # polarity: the test G is the one whose truth makes the scale factor vanish (result independent of target_std)
+    t_true = T.assume(ret, {c.key: True})
+    dep = any(a.kind == 'sym' and a.args[0] == 'target_std' for a in T.all_atoms(t_true).values())
+    G = T.mk_not(c) if dep else c
+    node = next((n for n in ast.walk(fi.node) if isinstance(n, (ast.If, ast.IfExp)) and 'data_std' in ast.unparse(n.test)), fi.node)
+    return G, node
+
+
 def run(ctx):
     T.NOTNONE.update({'data_std', 'data_mean'})
     # ---- D1 scale / round / clip / cast
@@ -69,10 +82,7 @@ def run(ctx):
     r, I = ctx.run(qr, no_inline=(DSM + 'estimate_stats',))
     # The statement's two arms, with the code's own zero-variance test G left free:  G ? round(target_mean) : round(scaled).
     # G itself must be a tolerance test (see FLOATEQ below), so it is not compared with a fixed expression.
-    fa_ = [e for e in I.events if e.kind == 'store' and e.data.get('target') == 'name' and e.pc
-           and any(mentions_std(c) for c in e.pc) and e.data['value'].const() == 0]
-    ctx.require(fa_, 'quantize_real: the zero-variance arm (factor 0 under a test of data_std) was not found')
-    G = fa_[0].cond()
+    G, g_node = zero_variance_test(ctx, r.ret, qr)
     spec = ctx.spec(qr, 'xp.clip(xp.around(ITE(G, 0, target_std / data_std) * (x - data_mean) + target_mean), '
                         '-2**(num_bits - 1), 2**(num_bits - 1) - 1).astype(int)', env={'G': G})
     ctx.formula('FORMULA', 'quantize_real == int(clip(round(factor*(x-mean)+target_mean), -2^(b-1), 2^(b-1)-1)), factor 0 for zero variance',
@@ -89,17 +99,15 @@ def run(ctx):
             d = inner.args[1] - inner.args[2]
             tol = mentions_std(d) and any(a.kind == 'call' and a.args[0] == 'abs' for a in T.all_atoms(d).values())
     ctx.ob('FLOATEQ', 'the zero-variance test tolerates the rounding of the mean (data_std <= c*|data_mean|), it is not an exact '
-           'comparison with 0', qr, (not exact) and tol, {'test': pretty(G)}, node=fa_[0].node, construct='zero-variance test of data_std')
+           'comparison with 0', qr, (not exact) and tol, {'test': pretty(G)}, node=g_node, construct='zero-variance test of data_std')
     T.NOTNONE.discard('data_std')
     T.NOTNONE.discard('data_mean')
     r2, I2 = ctx.run(qr, args={'data_std': T.NONE}, no_inline=(DSM + 'estimate_stats',))
-    fb_ = [e for e in I2.events if e.kind == 'store' and e.data.get('target') == 'name' and e.pc
-           and any(mentions_std(c) for c in e.pc) and e.data['value'].const() == 0]
-    ctx.require(fb_, 'quantize_real[data_std=None]: the zero-variance arm was not found')
+    G2, _ = zero_variance_test(ctx, r2.ret, qr)
     spec2 = ctx.spec(qr, 'xp.clip(xp.around(ITE(G, 0, '
                          'target_std / data_stream.estimate_stats(x, stats_calc_num_samples)[1]) * '
                          '(x - data_stream.estimate_stats(x, stats_calc_num_samples)[0]) + target_mean), '
-                         '-2**(num_bits - 1), 2**(num_bits - 1) - 1).astype(int)', env={'G': fb_[0].cond()},
+                         '-2**(num_bits - 1), 2**(num_bits - 1) - 1).astype(int)', env={'G': G2},
                      I=ctx.interp(no_inline=(DSM + 'estimate_stats',)))
     ctx.formula('FORMULA', 'without supplied statistics both moments come from estimate_stats(x, n)', qr, r2.ret, spec2,
                 node=qr.node, construct='return quantize_real [data_std=None]')
